@@ -53,7 +53,6 @@ def run(ctx):
     res.extra["flood_and_flow_rounds"] = fl
     res.distinct.add("flood:late-reader")
     res.distinct.add("flood:prompt-reader")
-    common.run_big(ctx, res, ("C01",))
     common.sample_histories(res, results, ("PRIVMSG", "NOTICE"))
     if not res.samples:
         res.add_sample({"shapes": sorted(tshapes)[:10]})
